@@ -9,7 +9,7 @@ from .. import astq
 from ..loader import AnalysisError, ClassInfo, FuncInfo, dotted, norm
 from ..report import Ctx
 from . import _c16_helpers as H
-from ._shared import headerset_insertion_rule, headerset_order_rule, optional_int_rule
+from ._shared import headerset_insertion_rule, headerset_order_rule, headerset_removal_rule, optional_int_rule
 
 LEVEL_TEXT = (
     "Static decision of structural clauses of C16 on /repo's current source, by path-wise symbolic execution of the "
@@ -19,7 +19,10 @@ LEVEL_TEXT = (
     "dict mutator (typeshed table) of every CallbackDict-derived view resolves, in the class's MRO, to a method that "
     "performs a dict mutation and, on every path on which the dict changes, calls the callback with the dict "
     "afterwards; (R16.2) the same for every public HeaderSet method that changes the list / set, plus per-element "
-    "growth under its own membership test and drop-before-add; (R16.3) ContentRange and WWWAuthenticate call the "
+    "growth under its own membership test, drop-before-add, and the removal half of the pairing: on every path an "
+    "element leaves the ordered list (pop / remove / del / item store / filtering rebuild / clear) only together with "
+    "the removal from the key set of a key that is that very element lower-cased (spelled so, or established equal on "
+    "the path; an index read after the list changed does not name the element that left); (R16.3) ContentRange and WWWAuthenticate call the "
     "callback after every change of their state (descriptor __set__ / property setters included) and build their "
     "parameter dicts with a callable that notifies the view; (R16.4) a class overriding __setattr__ hands every name "
     "that is a property with a setter (or a data descriptor) to the default __setattr__ on every path, decided by "
@@ -30,20 +33,35 @@ LEVEL_TEXT = (
     "inverse table (lambdas compared up to parameter names and eta-reduction), the accessor stores dump(value) and "
     "loads load(item) under its own name, and _set_cache_value agrees with its decision table under every "
     "consistent valuation; (R16.7) every writer of WWWAuthenticate's scheme attribute stores a lower-cased value like "
-    "the constructor. Equality of header text and serialisation after arbitrary histories follows from these "
-    "clauses only together with C06's pairing and is not itself decided; implicit exceptions and generator bodies "
-    "are not followed."
+    "the constructor; (R16.8) a write-back replaces all lines of its header: each header write operation is "
+    "classified by executing it on Headers with a string key (replacing: every completing path changes the line "
+    "list and some path overwrites / drops lines; adding: the list only ever grows; or possibly not writing), the "
+    "final write of every write-back path and every write of a whole-property setter is a replacing one (an adding "
+    "one only right after a replacing write / a deletion of the same name), and every evaluated comparison in the "
+    "inlined call graph of the Headers operations that getters, write-backs, setters and typed accessors use has both "
+    "operands case-folded when one is (comprehension filters included); (R16.9) where a write-back behaves "
+    "differently for a falsy view (deletes instead of writing), every candidate class of that view (annotations of "
+    "the callback / getter / setter, classes the getter constructs) whose __bool__ / __len__ is defined in the package "
+    "returns the empty string from the serialisation method the write-back stores on every path on which that method "
+    "makes the object falsy (HeaderSet's list and set are empty together by R16.2). That Headers.set leaves exactly "
+    "one line in every case (completeness of its scan, the shared iterator) is not decided beyond these comparisons; "
+    "serialisations built by an append loop are not recognised as empty; equality of header text and serialisation "
+    "after arbitrary histories follows from these clauses only together with C06's pairing and is not itself decided; "
+    "implicit exceptions and generator bodies are not followed."
 )
 TRUSTED = [
     "CPython ast",
     "typeshed dict / MutableSet mutator tables",
     "Python descriptor protocol: a property with a setter is a data descriptor and object.__setattr__ invokes it",
     "builtin container semantics: dict.pop / set.discard / remove change the container iff the key is present, setdefault iff it is absent",
+    "builtin truthiness: an object without __bool__ / __len__ is never falsy; a dict / list / set (subclass) is falsy iff it is empty; str.join of no items is ''",
 ]
 ASSUMPTIONS = [
     "a view whose on_update is None has nothing to notify",
     "direct header edits between view reads are outside these clauses",
     "private helpers are reachable only through the public methods of their class (they are judged inlined into their callers)",
+    "the views address headers by name: header operations are judged with a string key (R16.8)",
+    "a dict-based view (cache control, CSP) with no items serialises to the empty string (R16.9 relies on dict truthiness for them)",
 ]
 
 PAIRS = {  # reasoned inverse table for typed header properties: (load, dump)
@@ -103,6 +121,8 @@ def run(ctx: Ctx) -> None:
         "R16.5": "each view getter's callback writes/deletes the header it was read from, is attached on every return path, writes the view's serialisation; whole-property setters write the same header",
         "R16.6": "every typed header_property on Response has a load/dump pair from the reasoned inverse table",
         "R16.7": "every writer of WWWAuthenticate's scheme applies the constructor's lower-casing",
+        "R16.8": "a write-back replaces the header: its final write is an operation that, executed on Headers, stores the line on every path and can overwrite (an adding operation only right after a replacing write / deletion of the same name), and every name comparison in the Headers operations the views use is case-folded on both sides",
+        "R16.9": "a view object that a write-back / whole-property setter treats as empty when it is falsy has nothing to serialise then: falsy (package-defined __bool__ / __len__) implies an empty serialisation",
     }.items():
         ctx.rule(rid, text)
 
@@ -170,6 +190,7 @@ def run(ctx: Ctx) -> None:
     ctx.floor("R16.2", "HeaderSet mutating methods", n, 5)
     ctx.floor("R16.2", "HeaderSet list growth sites", headerset_insertion_rule(ctx, "R16.2"), 1)
     ctx.floor("R16.2", "HeaderSet methods that drop and add a key", headerset_order_rule(ctx, "R16.2"), 1)
+    ctx.floor("R16.2", "HeaderSet sites where an element leaves the list", headerset_removal_rule(ctx, "R16.2"), 2)
     # MutableSet mixin methods (|=, &=, pop, ...) come from the ABC and go through add/discard: both must be package methods
     for nm in ("add", "discard"):
         o, w = repo.lookup(hs, nm)
@@ -273,8 +294,10 @@ def run(ctx: Ctx) -> None:
             ctx.ob("R16.4", f"{c.name}.__setattr__ reaches the `{prop}` setter", bool(yes) and not no, f"with name={prop!r}: {len(yes)} path(s) hand the name to the default __setattr__ (which runs the data descriptor), {len(no)} do not" + (f" (lines {', '.join(map(str, no[0].st.trail))})" if no and no[0].st.trail else ""), sa, sa.node, f"{c.name}.__setattr__ delegates {prop}")
     ctx.floor("R16.4", "classes overriding __setattr__ with property setters", n, 1)
 
-    # ---------------- R16.5 ----------------------------------------
+    # ---------------- R16.5 / R16.8 / R16.9 ------------------------
+    _classify_write_ops(repo)
     _views(ctx)
+    _header_ops_casefold(ctx)
 
     # ---------------- R16.6 ----------------------------------------
     resp = repo.cls("sansio.response.Response")
@@ -401,15 +424,28 @@ def _hkey(term: str) -> str:
     return c.lower() if isinstance(c, str) else term
 
 
+_OP_KIND: dict[str, str] = {}  # header write operation -> 'W' (replaces every line of the name) | 'A' (adds a line) | 'M' (may not write)
+_USED_OPS: set[str] = set()  # header operations the getters / callbacks / setters were seen to use
+
+
 def _header_auto(a, ev, st):
-    """automaton of the header rules: the ordered header operations of the path (bounded), reads and callback stores."""
+    """automaton of the header rules: the ordered header operations of the path (bounded), reads and callback stores.
+    A write is 'W' when the operation replaces all lines of the name (``_classify_write_ops``), or adds a line
+    right after a replacing write / a deletion of the same name; 'A' when it only adds a line; 'M' when the
+    operation may leave the header as it is."""
     ops, reads, stores = a
     if ev[0] == "op" and ev[1] == "headers":
         if ev[2] in WRITE_OPS and len(ev[3]) >= 2:
-            ops = (ops + (("W", _hkey(ev[3][0]), ev[3][1]),))[-8:]
+            _USED_OPS.add(ev[2])
+            kind, key = _OP_KIND.get(ev[2], "W"), _hkey(ev[3][0])
+            if kind == "A" and ops and ops[-1][0] in ("W", "D") and ops[-1][1] == key:
+                kind = "W"
+            ops = (ops + ((kind, key, ev[3][1]),))[-8:]
         elif ev[2] in DELETE_OPS:
+            _USED_OPS.add(ev[2])
             ops = (ops + (("D", _hkey(ev[3][0]) if ev[3] else "*", ""),))[-8:]
     elif ev[0] == "read" and ev[1] == "headers" and ev[2] in READ_OPS and ev[3]:
+        _USED_OPS.add(ev[2])
         reads = reads | {_hkey(ev[3][0])}
     elif ev[0] == "store" and ev[2] in H.CB_ATTRS:
         stores = stores | {(ev[1], ev[3])}
@@ -439,6 +475,270 @@ def _is_serialisation(value: str) -> str | None:
     if isinstance(n, ast.Call) and (dotted(n.func) or "").rsplit(".", 1)[-1] == "dump_options_header" and len(n.args) == 2 and H.text(n.args[1]) == "__view__":
         return "mixed"
     return None
+
+
+def _ser_method(value: str) -> str | None:
+    """name of the view method whose result the write-back stores (``view.to_header()`` / ``str(view)``)."""
+    n = H.P(value)
+    if isinstance(n, ast.Call) and isinstance(n.func, ast.Attribute) and H.text(n.func.value) == "__view__" and not n.args:
+        return n.func.attr
+    if isinstance(n, ast.Call) and dotted(n.func) == "str" and len(n.args) == 1 and H.text(n.args[0]) == "__view__":
+        return "__str__"
+    return None
+
+
+# ---- R16.8: the header operations behind the views -----------------------------------------------------------------
+HEADERS = "datastructures.headers.Headers"
+GROW_OPS = {"append", "insert", "extend", "__iadd__", "appendleft"}
+ACCESSOR_OPS = {"__setitem__", "__getitem__", "__contains__", "pop"}  # subscript store / read, membership, pop: the typed accessors' protocol
+
+
+def _str_key_oracle(key: str):
+    """the views address headers by name: the key argument of a header operation is a string."""
+    m = H.re.match(r"^isinstance\(__p1__, (.+)\)$", key)
+    if m:
+        return "str" in set(H.re.findall(r"\w+", m.group(1)))
+    if key == "__p1__ is None":
+        return False
+    return None
+
+
+def _classify_write_ops(repo) -> None:
+    """what each header write operation does to the line list, decided by executing it on Headers with a string key:
+    'W' every completing path changes the list and some path overwrites / drops lines (it can replace), 'A' every path
+    changes the list but only ever by growing it (it adds a line next to the earlier ones), 'M' some path leaves the
+    list as it is (setdefault-like)."""
+    _OP_KIND.clear()
+    _USED_OPS.clear()
+    hd = repo.cls(HEADERS)
+
+    def on_event(a, ev, st):
+        if ev[0] == "mut":
+            return (True, a[1] or ev[2] not in GROW_OPS)
+        return a
+
+    for op in sorted(WRITE_OPS):
+        _, fi = repo.lookup(hd, op)
+        if not isinstance(fi, FuncInfo):
+            continue
+        ex = H.Exec(repo, hd, on_event=on_event, oracle=_str_key_oracle)
+        outs = [o for o in ex.run_function(fi, auto0=(False, False)) if o.kind == "ret"]
+        if not outs:
+            raise AnalysisError(f"Headers.{op}: no completing path")
+        always = all(o.st.auto[0] for o in outs)
+        _OP_KIND[op] = ("W" if any(o.st.auto[1] for o in outs) else "A") if always else "M"
+    if "W" not in _OP_KIND.values():
+        raise AnalysisError("Headers: no write operation that replaces the lines of a name")
+
+
+STR_RAW_METHODS = {"upper", "title", "strip", "lstrip", "rstrip", "capitalize", "swapcase", "replace", "format", "join", "decode", "encode"}
+
+
+def _caseness(term: str, collection: bool) -> str:
+    """'lowered' | 'raw' | 'unknown' for an operand of a name comparison."""
+    if (H.lowered_elements(term) if collection else H.is_lowered(term)):
+        return "lowered"
+    n = H.P(term)
+    if isinstance(n, ast.Call):
+        if isinstance(n.func, ast.Attribute) and n.func.attr in STR_RAW_METHODS | H.PURE_METHODS:
+            return "raw"
+        if dotted(n.func) in ("str", "repr", "list", "tuple", "set", "frozenset", "sorted", "iter", "map", "dict", "enumerate", "zip", "reversed"):
+            return "raw"
+        return "unknown"
+    return "raw"
+
+
+def _header_ops_casefold(ctx: Ctx) -> None:
+    """every evaluated comparison (== != in not-in, comprehension filters included) in the inlined call graph of the
+    Headers operations that getters, write-backs, setters and typed accessors use, called with a string key: when one
+    operand is lower-cased by construction the other one is too (a raw stored name compared with a lower-cased key
+    matches only lines that happen to be stored in lower case: the write-back leaves stale lines, a read misses the
+    header)."""
+    repo = ctx.repo
+    hd = repo.cls(HEADERS)
+    found: dict[int, dict] = {}
+
+    def on_event(a, ev, st):
+        if ev[0] != "compare" or ev[1] not in ("Eq", "NotEq", "In", "NotIn"):
+            return a
+        if H.const_of(ev[2]) is not H._NOCONST or H.const_of(ev[3]) is not H._NOCONST:
+            return a
+        ka, kb = _caseness(ev[2], False), _caseness(ev[3], ev[1] in ("In", "NotIn"))
+        if ka != "lowered" and kb != "lowered":
+            return a
+        d = found.setdefault(id(ev[-2]), {"fi": ev[-1], "node": ev[-2], "ok": True, "sides": (ka, kb), "terms": (ev[2], ev[3]), "ops": set()})
+        d["ops"].add(cur[0])
+        if not (ka == "lowered" and kb == "lowered"):
+            d.update(ok=False, sides=(ka, kb), terms=(ev[2], ev[3]))
+        return a
+
+    ops = sorted((_USED_OPS | ACCESSOR_OPS))
+    cur = [""]
+    n_ops = 0
+    for op in ops:
+        _, fi = repo.lookup(hd, op)
+        if not isinstance(fi, FuncInfo):
+            continue
+        n_ops += 1
+        cur[0] = op
+        ex = H.Exec(repo, hd, on_event=on_event, oracle=_str_key_oracle)
+        ex.run_function(fi, auto0=None)
+    ctx.floor("R16.8", "Headers operations used by the views", n_ops, 4)
+    for d in sorted(found.values(), key=lambda d: (d["fi"].fq if d["fi"] else "", getattr(d["node"], "lineno", 0))):
+        fi, cmp_ = d["fi"], d["node"]
+        if not d["ok"] and "unknown" in d["sides"]:
+            raise AnalysisError(f"{fi.fq if fi else hd.fq}: cannot decide whether `{d['terms'][0 if d['sides'][0] == 'unknown' else 1]}` in `{norm(cmp_)}` is lower-cased")
+        side = lambda i: f"{'lower-cased' if d['sides'][i] == 'lowered' else 'RAW'} (`{d['terms'][i]}`)"  # noqa: E731
+        ctx.ob("R16.8", f"{fi.qualname if fi else hd.name}: `{norm(cmp_)}` compares header names case-folded on both sides", d["ok"], f"left {side(0)}, right {side(1)}; reached from Headers.{'/'.join(sorted(d['ops']))}", fi or hd.fq, cmp_, norm(cmp_))
+    ctx.floor("R16.8", "case-folded name comparisons behind the views", len(found), 3)
+
+
+# ---- R16.9: falsy view => nothing to serialise ---------------------------------------------------------------------
+def _annotation_classes(repo, module, ann: ast.AST | None) -> list[ClassInfo]:
+    out = []
+    if ann is None:
+        return out
+    if isinstance(ann, ast.Constant) and isinstance(ann.value, str):
+        try:
+            ann = ast.parse(ann.value, mode="eval").body
+        except SyntaxError:
+            return out
+    for x in ast.walk(ann):
+        d = dotted(x) if isinstance(x, (ast.Name, ast.Attribute)) else None
+        if not d:
+            continue
+        tgt = repo.resolve(module, d)
+        k = repo.try_cls(tgt) if tgt and tgt.startswith("werkzeug") else None
+        if k is not None and k not in out:
+            out.append(k)
+    return out
+
+
+def _empty_iter(term: str, facts: dict[str, bool]) -> bool:
+    """the term iterates nothing on a path with these facts."""
+    c = H.const_of(term)
+    if c is not H._NOCONST:
+        return not c
+    if facts.get(term) is False:
+        return True
+    n = H.P(term)
+    if isinstance(n, (ast.ListComp, ast.SetComp, ast.GeneratorExp, ast.DictComp)):
+        return _empty_iter(H.text(n.generators[0].iter), facts)
+    if isinstance(n, ast.Call):
+        d = dotted(n.func)
+        if d in ("map", "filter") and len(n.args) == 2:
+            return _empty_iter(H.text(n.args[1]), facts)
+        if d in ("list", "tuple", "set", "frozenset", "sorted", "iter", "reversed", "enumerate") and n.args:
+            return _empty_iter(H.text(n.args[0]), facts)
+        if isinstance(n.func, ast.Attribute) and n.func.attr in ("items", "keys", "values", "copy") and not n.args:
+            return _empty_iter(H.text(n.func.value), facts)
+    return False
+
+
+def _empty_text(term: str, facts: dict[str, bool]) -> bool:
+    """the term is the empty string on a path with these facts."""
+    c = H.const_of(term)
+    if c is not H._NOCONST:
+        return c == ""
+    n = H.P(term)
+    if isinstance(n, ast.Call) and isinstance(n.func, ast.Attribute) and n.func.attr == "join" and len(n.args) == 1 and isinstance(H.const_of(H.text(n.func.value)), str):
+        return _empty_iter(H.text(n.args[0]), facts)
+    return False
+
+
+def _falsy_facts(value: str, facts: dict[str, bool]) -> dict[str, bool] | None:
+    """facts of a path on which the returned truth value ``value`` is falsy (None: the value is truthy there); the
+    emptiness of a container whose length was tested is made explicit."""
+    c = H.const_of(value)
+    out = dict(facts)
+    if c is not H._NOCONST:
+        if c:
+            return None
+    else:
+        n = H.P(value)
+        k, p = H.canon(n)
+        if p is not True:
+            return None
+        out[k] = False
+    for k, v in list(out.items()):
+        n = H.P(k)
+        inner = None
+        if v is False and isinstance(n, ast.Call) and dotted(n.func) == "len" and len(n.args) == 1:
+            inner = n.args[0]  # not len(X)
+        elif isinstance(n, ast.Compare) and len(n.ops) == 1:
+            a, b = n.left, n.comparators[0]
+            is_len = lambda x: isinstance(x, ast.Call) and dotted(x.func) == "len" and len(x.args) == 1  # noqa: E731
+            zero = lambda x: isinstance(x, ast.Constant) and x.value == 0 and not isinstance(x.value, bool)  # noqa: E731
+            if v is False and isinstance(n.ops[0], ast.Lt) and zero(a) and is_len(b):
+                inner = b.args[0]  # not (0 < len(X))
+            elif v is True and isinstance(n.ops[0], ast.Eq) and (zero(a) and is_len(b) or zero(b) and is_len(a)):
+                inner = (b if is_len(b) else a).args[0]  # len(X) == 0
+            elif v is True and isinstance(n.ops[0], ast.Lt) and is_len(a) and isinstance(b, ast.Constant) and b.value == 1:
+                inner = a.args[0]  # len(X) < 1
+        if inner is not None:
+            out[H.text(inner)] = False
+    return out
+
+
+_falsy_cache: dict[tuple, tuple[bool | None, str]] = {}
+
+
+def _falsy_means_empty(repo, c: ClassInfo, meth: str) -> tuple[bool | None, str]:
+    """(verdict, fact) for class c: None - c's truthiness is not defined by the package (an object is never falsy; a
+    builtin container is falsy iff empty); True - on every path on which the package's __bool__ / __len__ makes the
+    object falsy, ``meth`` returns the empty string; False - a falsy object still has a non-empty serialisation."""
+    key = (id(repo), c.fq, meth)
+    if key in _falsy_cache:
+        return _falsy_cache[key]
+    res = _falsy_means_empty_(repo, c, meth)
+    _falsy_cache[key] = res
+    return res
+
+
+def _falsy_means_empty_(repo, c: ClassInfo, meth: str) -> tuple[bool | None, str]:
+    tfi = None
+    for tm in ("__bool__", "__len__"):
+        owner, what = repo.lookup(c, tm)
+        if isinstance(what, FuncInfo):
+            tfi = what
+            break
+        if what == "builtin":
+            return None, f"{c.name}: truthiness is {owner.name}.{tm} (a builtin container is falsy iff it is empty)"
+    if tfi is None:
+        return None, f"{c.name} defines neither __bool__ nor __len__: never falsy"
+    _, sfi = repo.lookup(c, meth)
+    if not isinstance(sfi, FuncInfo):
+        raise AnalysisError(f"{c.name}.{meth}: the serialisation the write-back stores is not a package method")
+    ex = H.Exec(repo, c)
+    falsy = []
+    for o in ex.run_function(tfi):
+        if o.kind != "ret":
+            continue
+        f = _falsy_facts(o.value, o.st.facts)
+        if f is not None:
+            falsy.append(f)
+    if not falsy:
+        return True, f"{tfi.qualname} has no falsy outcome"
+    pair = None
+    if c.fq.endswith("structures.HeaderSet"):
+        from ._shared import headerset_roles
+
+        pair = [f"{H.SELF}.{x}" for x in headerset_roles(repo)]  # list and set are empty together (R16.2 pairing)
+    _, lfi = repo.lookup(c, "__len__")
+    if isinstance(lfi, FuncInfo) and lfi is not tfi and any(f.get(H.SELF) is False for f in falsy):
+        # __bool__ decided on len(self): the object's own __len__ says which storage is empty then
+        more = [g for o in H.Exec(repo, c).run_function(lfi) if o.kind == "ret" for g in [_falsy_facts(o.value, o.st.facts)] if g is not None]
+        falsy = [{**f, **g} for f in falsy for g in (more if f.get(H.SELF) is False and more else [{}])]
+    for f in falsy:
+        f[H.SELF] = False  # the object itself is falsy on this path (``if not self`` inside the serialisation)
+        if pair and any(f.get(x) is False for x in pair):
+            f.update({x: False for x in pair})
+        ex2 = H.Exec(repo, c)
+        for o in ex2.run_function(sfi, facts0=f):
+            if o.kind == "ret" and not _empty_text(o.value, o.st.facts):
+                cond = ", ".join(f"{k}={v}" for k, v in sorted(f.items())) or "always"
+                return False, f"{tfi.qualname} makes the object falsy when [{cond}], but {sfi.qualname} then returns `{o.value}` (line {getattr(sfi.node, 'lineno', '?')}ff): the write-back would delete a header that has a serialisation"
+    return True, f"{tfi.qualname}: {len(falsy)} falsy outcome(s), {sfi.qualname} returns '' on each"
 
 
 def _views(ctx: Ctx) -> None:
@@ -486,6 +786,7 @@ def _views(ctx: Ctx) -> None:
     ctx.floor("R16.5", "view getters", len(getters), 7)
     ctx.floor("R16.5", "_set_property instances", n_uses, 3)
 
+    counts = {"replacing": 0, "truth": 0, "setters": 0}
     for name, fi, ex, outs, setter in getters:
         # ---- callback attached on every return path; header read by the getter
         cbs: set[str] = set()
@@ -515,12 +816,18 @@ def _views(ctx: Ctx) -> None:
         names_ok, ser_ok, del_ok = True, True, True
         kinds: set[str | None] = set()
         why: list[str] = []
+        adds: list[str] = []
+        sers: set[str] = set()
         for o in rows[True]:
             ops = o.st.auto[0]
-            if not ops or ops[-1][0] != "W":
+            if ops and ops[-1][0] in ("A", "M"):
+                adds.append(f"the write-back ends with an operation that {'adds a line next to the earlier ones' if ops[-1][0] == 'A' else 'may leave the header as it is'} (`{ops[-1][2]}` under {ops[-1][1]!r})")
+            if not ops or ops[-1][0] not in ("W", "A"):  # whether an adding write is enough is R16.8's business
                 names_ok = False
                 why.append("a non-empty view does not end by writing the header")
                 continue
+            if _ser_method(ops[-1][2]):
+                sers.add(_ser_method(ops[-1][2]))
             if any(k != hdr for _, k, _ in ops):
                 names_ok = False
                 why.append(f"non-empty view: header operations on {sorted({k for _, k, _ in ops})}, getter reads {hdr!r}")
@@ -536,7 +843,7 @@ def _views(ctx: Ctx) -> None:
                 why.append(f"empty view: header operations on {sorted({k for _, k, _ in ops})}, getter reads {hdr!r}")
             if mixed:
                 continue
-            if any(kind == "W" for kind, _, _ in ops):
+            if any(kind in ("W", "A", "M") for kind, _, _ in ops):
                 del_ok = False
                 why.append("an empty view still writes the header")
             elif not any(kind == "D" for kind, _, _ in ops):
@@ -552,6 +859,42 @@ def _views(ctx: Ctx) -> None:
         if not mixed:
             ctx.ob("R16.5", f"{name}: empty view deletes the header", del_ok, fact, fi, cbnode, f"{name} delete edge")
         ctx.ob("R16.5", f"{name}: callback writes the view's serialisation", ser_ok and bool(kinds), fact, fi, cbnode, f"{name} serialisation")
+        ctx.ob("R16.8", f"{name}: the write-back replaces the header", not adds, adds[0] if adds else f"final write of every path is a replacing operation ({sorted(k for k, v in _OP_KIND.items() if v == 'W')}) or follows one / a deletion of the same name", fi, cbnode, f"{name} replacing write")
+        counts["replacing"] += 1
+        # ---- a falsy view is treated as "nothing to serialise": the view's class must agree
+        depends = {o.st.auto[0] for o in rows[True]} != {o.st.auto[0] for o in rows[False]}
+        if depends and not mixed and sers:
+            # candidate classes of the view: what the callback / the getter / the setter are annotated with, and the
+            # package classes the getter constructs (each one that has the serialisation method the write-back calls)
+            snode_ = setter.node if isinstance(setter, FuncInfo) else (ex.fns[setter].node if setter in ex.fns else None)
+            cbargs = cbfn.node.args.args if cbfn.node is not None else (cbfn.fi.node.args.args[1:] if cbfn.fi is not None else [])
+            anns = [cbargs[0].annotation if cbargs else None, fi.node.returns]
+            if snode_ is not None and len(snode_.args.args) > 1:
+                anns.append(snode_.args.args[1].annotation)
+            cands: list[ClassInfo] = []
+            for ann in anns:
+                cands += [k for k in _annotation_classes(repo, fi.module, ann) if k not in cands]
+            for x in ast.walk(fi.node):
+                d = dotted(x.func) if isinstance(x, ast.Call) else None
+                tgt = repo.resolve(fi.module, d) if d else None
+                if not tgt or not tgt.startswith("werkzeug"):
+                    continue
+                k = repo.try_cls(tgt)
+                tf = repo.try_func(tgt) if k is None else None
+                if k is not None and k not in cands:
+                    cands.append(k)  # constructed by the getter
+                elif tf is not None:  # a package function / classmethod the getter calls: what it is declared to return
+                    cands += [k2 for k2 in _annotation_classes(repo, tf.module, tf.node.returns) if k2 not in cands]
+            cands = [k for k in cands if any(isinstance(repo.lookup(k, m_)[1], FuncInfo) for m_ in sers)]
+            if not cands:
+                raise AnalysisError(f"{name}: the write-back tests the truthiness of its view, but the view's class cannot be determined (no annotation / construction resolves to a package class with {sorted(sers)})")
+            for k in sorted(cands, key=lambda k: k.fq):
+                for meth in sorted(sers):
+                    if not isinstance(repo.lookup(k, meth)[1], FuncInfo):
+                        continue
+                    verdict, vfact = _falsy_means_empty(repo, k, meth)
+                    counts["truth"] += 1
+                    ctx.ob("R16.9", f"{name}: a falsy {k.name} has nothing to serialise", verdict is not False, vfact, fi, cbnode, f"{name} falsy {k.name}")
         # ---- the whole-property setter writes the getter's header
         if setter is None:
             continue
@@ -567,8 +910,14 @@ def _views(ctx: Ctx) -> None:
             where, snode, label, cons = fi, ex3.fns[setter].node, f"{name.split('.')[0]} setter writes its own header", f"{name.split('.')[0]} setter header"
         souts = [o for o in souts if o.kind == "ret"]
         keys = {k for o in souts for _, k, _ in o.st.auto[0]}
-        writes = any(kind == "W" for o in souts for kind, _, _ in o.st.auto[0])
+        writes = any(kind in ("W", "A") for o in souts for kind, _, _ in o.st.auto[0])
         ctx.ob("R16.5", label, writes and keys == {hdr}, f"getter reads {hdr!r}, setter operates on {sorted(keys)}", where, snode, cons)
+        sadds = sorted({f"`{v}` under {k!r}" for o in souts for kind, k, v in o.st.auto[0] if kind in ("A", "M")})
+        counts["setters"] += 1
+        ctx.ob("R16.8", label.replace("writes the getter's header", "replaces the header").replace("writes its own header", "replaces the header"), not sadds, f"a path writes {sadds[0]} with an operation that adds a line / may not write, without a replacing write or a deletion of that name before it" if sadds else "every adding write follows a replacing write / deletion of the same name", where, snode, cons.replace("setter header", "setter replaces"))
+    ctx.floor("R16.8", "write-backs judged", counts["replacing"], 7)
+    ctx.floor("R16.8", "whole-property setters judged", counts["setters"], 4)
+    ctx.floor("R16.9", "view classes whose truthiness a write-back relies on", counts["truth"], 4)
 
 
 def _cache_value_table(ctx: Ctx, cc: ClassInfo) -> None:
